@@ -341,3 +341,58 @@ def run(rep: Report, prog: Program, tier: str) -> None:
     run_policy(rep, prog, PROP, "C13-POLICY")
     from .C13life import run_open_first
     run_open_first(rep, prog, PROP, "C13-OPENFIRST")
+    close_once_rule(rep, prog)
+
+
+def close_once_rule(rep: Report, prog: Program) -> None:
+    """C13-CLOSEONCE: _data_channel_close() evaluated for every ready state of the channel: a channel that is already closing / closed is left alone - a second stream reset for the
+    same id would go out after the id has been freed and tear down whichever channel re-uses it."""
+    from collections import deque
+    RULE = "C13-CLOSEONCE"
+    rep.rule(RULE, "closing a channel queues at most one stream reset for its id", min_instances=6)
+    fi = prog.func("rtcsctptransport.RTCSctpTransport._data_channel_close")
+
+    def hk(call: ast.Call, ev: Evaluator) -> Any:
+        nm = unparse(call.func)
+        if nm == "channel._setReadyState":
+            ev.env["channel"].readyState = ev.ev(call.args[0])
+            return None
+        if nm.endswith("ensure_future"):
+            return None
+        if nm == "self._transmit_reconfig":
+            return None
+        if nm == "deque" and not call.args:
+            return deque()
+        return NotImplemented
+    for established in (True, False):
+        for state in ("connecting", "open", "closing", "closed"):
+            ch = SimpleNamespace(id=5, readyState=state)
+            st = SimpleNamespace(ESTABLISHED="ESTABLISHED", CLOSED="CLOSED")
+            me = SimpleNamespace(_association_state="ESTABLISHED" if established else "CLOSED", State=st, _reconfig_queue=[5] if state == "closing" and established else [],
+                                 _data_channel_queue=deque(), _data_channels={5: ch} if state != "closed" else {})
+            before = list(me._reconfig_queue)
+            ev = Evaluator(prog, fi.module, fi.cls, {"self": me, "channel": ch}, hk)
+            try:
+                try:
+                    ev.exec_block(fi.node.body)
+                except Ret:
+                    pass
+            except Raised as ex:
+                rep.fail(mk_finding(prog, PROP, RULE, fi, getattr(ex, "node", None), f"close() on a channel that is {state} ({'established' if established else 'no'} association) raises {ex.name}", construct=f"close {state} raises"))
+                continue
+            except Unknown as ex:
+                raise AnalysisError(f"{RULE}: cannot evaluate _data_channel_close: {ex}")
+            what = f"close() on a channel that is {state}, association {'established' if established else 'not established'}"
+            if state in ("closing", "closed"):
+                ok = me._reconfig_queue == before and ch.readyState == state
+                want = "nothing changes"
+            elif established:
+                ok = me._reconfig_queue == [5] and ch.readyState == "closing"
+                want = "one reset queued, channel closing"
+            else:
+                ok = me._reconfig_queue == [] and ch.readyState == "closed" and 5 not in me._data_channels
+                want = "closed at once, id freed"
+            if ok:
+                rep.ok(RULE, what, sample=want)
+            else:
+                rep.fail(mk_finding(prog, PROP, RULE, fi, fi.node, f"{what}: reset queue {before} -> {me._reconfig_queue}, channel is {ch.readyState}; expected: {want}", construct=f"close on {state} channel"))
